@@ -12,6 +12,11 @@ CHECKS = {
         "generated operator trees x operations x right-hand-side kinds compared with an independent float64 dense reference model and torch.matmul",
         "trusts torch CPU float64 arithmetic and the harness' dense reference semantics (lov/refmodel.py); sizes <= 6 (<= 36 for Kronecker), nesting <= 3 (quick) / 4 (thorough); upper-orientation Cholesky operators are a recorded known finding and excluded from nesting",
     ),
+    "C03": (
+        "property-based testing (Hypothesis): generated index tuples per (class, index-kind, position) cell, oracle = torch indexing of the dense reference",
+        "generated operator trees x index tuples (ints incl. negative, non-empty slices incl. stepped / over-long / stop==size, Ellipsis, 0-d/1-d/rank-2 LongTensors, lists) x debug on/off; result (densified when lazy) compared in shape, advanced-index placement and value with torch indexing of the independent dense reference; explicit not-supported errors are counted as declined, everything else is a violation",
+        "trusts torch advanced-indexing semantics as the specification; classes / index features with an open known finding (BlockDiag, BlockInterleaved, Cat, BatchRepeat, TransposePermutation, negative tensor entries, Kronecker of non-square factors .diagonal()) are excluded from generation and covered only by their witnesses",
+    ),
     "C16": (
         "property-based testing (Hypothesis) against a reference implementation of the specification (eigenvalue-margin generator, per-member expected try index)",
         "generated symmetric batches with the smallest eigenvalue placed at a stated margin from every jitter threshold; per-member reference verdict (sure-succeeds / sure-fails from float64 eigenvalues with a derived rounding margin), bitwise comparison of unperturbed members, jitter amount, warning/exception class and input immutability",
@@ -21,7 +26,7 @@ CHECKS = {
 
 NOT_APPLICABLE = {}
 
-PENDING = ["C02", "C03", "C04", "C05", "C06", "C07", "C08", "C09", "C10", "C11", "C12", "C13", "C14", "C15", "C17", "C18", "C19", "C20"]
+PENDING = ["C02", "C04", "C05", "C06", "C07", "C08", "C09", "C10", "C11", "C12", "C13", "C14", "C15", "C17", "C18", "C19", "C20"]
 
 
 def main():
